@@ -23,6 +23,7 @@ Translation rules (the trusted part of this tie; everything else is checked by L
   if … : return           -> `if … then … else <rest>`
   nested def (no capture) -> a separate generated definition `<outer>__<inner>`
   an int-typed name in float arithmetic -> `Num.ofInt v`
+  docstrings, `pass`, and print / logging / warnings calls whose value is discarded -> nothing (they cannot change what is returned)
   all(c(v) for v in rgb)  -> the conjunction over the three components;  int comparisons -> `decide (a ≤ b)`
   try: BODY except Exception: HANDLER -> BODY, each explicit `raise` in it continuing with HANDLER (exceptions raised
                              inside callees are not modelled: the `_safe` wrappers' images hold for inputs on which the
@@ -51,6 +52,32 @@ class Unsupported(Exception):
     pass
 
 
+def norm_ann(text):
+    """annotation text in one spelling: no blanks, `tuple`/`list` for `Tuple`/`List`, `X|None` for `Optional[X]`"""
+    import re
+    t = text.replace(" ", "").replace("typing.", "").replace("Tuple[", "tuple[").replace("List[", "list[")
+    m = re.fullmatch(r"Optional\[(.*)\]", t)
+    if m:
+        t = m.group(1) + "|None"
+    if t.startswith("None|"):
+        t = t[5:] + "|None"
+    return t
+
+
+def is_noise(stmt):
+    """statements that cannot influence what a function returns: `pass`, logging / print / warnings calls whose value is discarded"""
+    if isinstance(stmt, ast.Pass):
+        return True
+    if isinstance(stmt, ast.Expr) and isinstance(stmt.value, ast.Call):
+        f = stmt.value.func
+        root = f
+        while isinstance(root, (ast.Attribute, ast.Call)):
+            root = root.value if isinstance(root, ast.Attribute) else root.func
+        if isinstance(root, ast.Name) and root.id in ("print", "logging", "logger", "log", "warnings", "_log", "_logger", "LOGGER"):
+            return True
+    return False
+
+
 def lname(n):
     return n if n not in ("fun", "let", "then", "else", "if", "at", "from", "to", "end", "open", "in", "do", "by", "have", "show", "λ") else n + "_"
 
@@ -69,14 +96,14 @@ class Fn:
     def ann_type(self, a):
         if a is None:
             return "F"
-        t = ast.get_source_segment(self.src, a).replace(" ", "")
-        if t in ("float", "float|int"):
+        t = norm_ann(ast.get_source_segment(self.src, a))
+        if t in ("float", "float|int", "int|float"):
             return "F"
         if t == "bool":
             return "B"
-        if t == "Tuple[int,int,int]":
+        if t == "tuple[int,int,int]":
             return "RGB"
-        if t == "Tuple[float,float,float]":
+        if t == "tuple[float,float,float]":
             return "T3"
         raise Unsupported("annotation " + t)
 
@@ -334,6 +361,8 @@ class Fn:
                 return pad + (self.toF(vals[0]) if vals[0][1] not in ("B", "S", "RGB", "T3", "I") else vals[0][0]), vals[0][1]
             return pad + "(" + ", ".join(self.toF(v) if v[1] not in ("B", "S", "RGB", "T3", "I") else v[0] for v in vals) + ")", "tuple"
         s, rest = stmts[0], stmts[1:]
+        if is_noise(s):
+            return self.block(rest, tail, ind)
         if isinstance(s, ast.Expr) and isinstance(s.value, ast.Constant) and isinstance(s.value.value, str):
             return self.block(rest, tail, ind)         # docstring
         if isinstance(s, ast.Try):
